@@ -7,6 +7,7 @@ accumulate_*_deltas, read_*_deltas), skrifa `outline/glyf/deltas.rs`, `outline/g
 -/
 import FontVerif.Model.GvarApply
 import FontVerif.Lemmas.GvarApply
+import FontVerif.Lemmas.GvarMulti
 import FontVerif.Lemmas.GvarScalar
 import FontVerif.Props.C10Data
 set_option linter.unusedVariables false
@@ -150,13 +151,12 @@ location, skrifa's adjusted point = point + to_i32(T) with |T − 65536 · Σ_t 
 specification's inferred delta of tuple t at point k.  PROVED: every ingredient for all inputs —
 the scalar bound (`tuple_scalar_error_bound`), exact scaling (`scaled_delta_exact`), the buffer after
 `accumulate_sparse_deltas` (`accumulate_sparse_pointwise`), the per-axis interpolation bound
-(`interpolate_fixed_error_bound`), per-tuple accumulation (`simple_sparse_tuple_adds`) and the final
-rounding (`final_rounding`) — and their composition into the bound against the specification for a
-glyph with ONE contour plus phantom points (below).  MISSING: the same composition for contours
-that do not start at point 0 (the loops of `interpolate_deltas` are modelled for any contour list
-and tied to skrifa by correspondence on multi-contour glyphs, but `reader_loops_pick_spec_references`
-and hence this theorem are proved for a contour at points 0 ..= n-1), and the summation over several
-tuples as one closed formula (each tuple's contribution is added by wrapping 16.16 addition). -/
+(`interpolate_fixed_error_bound`), per-tuple accumulation (`simple_sparse_tuple_adds`), the final
+rounding (`final_rounding`) — and their composition against the specification per tuple for ANY list
+of contours (`apply_deltas_eq_spec` below; `apply_deltas_eq_spec_partial` is its one-contour case,
+kept because the induction uses it).  STILL MISSING: the summation over several tuples as one closed
+formula (each tuple's contribution is added to the running 16.16 deltas by wrapping addition in the
+order of the tuples; the fold is modelled — `simpleGlyph` — and tied bit exact by correspondence). -/
 /-- **`apply_deltas_eq_spec_partial` — one tuple, one contour (+ the four phantom points).**
 `points` = the `n` contour points then the phantom points (coordinates within `±M`); the tuple lists
 explicit deltas `ds` (zero where `has` is false, magnitudes within `Δ`) and is applied with the
@@ -207,7 +207,7 @@ theorem apply_deltas_eq_spec_partial (n : Nat) (hn : 0 < n) (points ds : List Iu
     obtain ⟨⟨a1, a2⟩, ⟨a3, a4⟩⟩ := hds k
     simp only []
     refine ⟨⟨?_, ?_⟩, ⟨?_, ?_⟩⟩ <;> nlinarith
-  obtain ⟨out, e, hl, hc, hph⟩ := contour_contribution n hn points (ds.map fun d => (d.1 * s, d.2 * s)) has
+  obtain ⟨out, e, hl, hc, hph⟩ := contour_contribution n 4 hn points (ds.map fun d => (d.1 * s, d.2 * s)) has
     hpl hhl (by simp [hdl]) M (Δ * 65536) hM (by omega) hfit hpts hexb
     (fun k hk => by rw [hg k, hds0 k hk]; simp)
   refine ⟨out, e, hl, fun k hk => ?_, fun k hk1 hk2 => ?_⟩
@@ -225,6 +225,88 @@ theorem apply_deltas_eq_spec_partial (n : Nat) (hn : 0 < n) (points ds : List Iu
     simp only [] at n3 n4 n5 n6
     constructor <;> omega
   · rw [hph k hk1 hk2, getP_workOf _ _ k (by omega), hg k]
+
+/-- **`apply_deltas_eq_spec` — one tuple, ANY list of contours.**  `ends` are the contour end points
+(`ContoursWF`: ascending, inside the glyph; contours are `0 ..= e₀`, `e₀+1 ..= e₁`, …), the points
+from `endOf 0 ends` on (the phantom points) belong to no contour.  With the hypotheses of
+`apply_deltas_eq_spec_partial` (coordinates within `±M`, deltas within `±Δ`, scalar `0 < s ≤ 65536`,
+nothing wraps), `interpolate_deltas` over the whole glyph succeeds, and by induction over the
+contour list (`glyphLoop_contribution`: a contour at `first ..= last` is processed exactly like the
+same contour moved to the front — `readerContourCalls_shift`, `applyCall_shift` — changes only its own
+points, and later contours never touch earlier points):
+for EVERY contour `first ..= last` and every point `k` of it, the delta added for this tuple,
+`δ_k = working_k − point_k·65536`, satisfies on each axis `|den · δ_k − s · num| ≤ den · (den − 1) / 2`,
+where `num / den` is the SPECIFICATION's inference applied to that contour on its own
+(`inferSpec` on the contour's slice of the points, deltas and explicit flags, index `k − first`),
+with `δ_k = s · d_k` exactly for explicit points; the points after the last contour keep
+`point·65536 + s · d` (explicit) or the point itself (`d = 0`). -/
+theorem apply_deltas_eq_spec (np : Nat) (points ds : List Iup.Pt) (has : List Bool) (s : Int) (ends : List Nat)
+    (hpl : points.length = np) (hhl : has.length = np) (hdl : ds.length = np)
+    (hwf : ContoursWF np 0 ends)
+    (M Δ : Int) (hM : 0 ≤ M ∧ M ≤ 16383) (hΔ : 0 ≤ Δ) (hs : 0 < s ∧ s ≤ 65536)
+    (hfit : 131072 * M + 4 * (Δ * 65536) + 65536 ≤ 2147483647)
+    (hpts : ∀ k, (-M ≤ (Iup.getP points k).1 ∧ (Iup.getP points k).1 ≤ M) ∧
+      (-M ≤ (Iup.getP points k).2 ∧ (Iup.getP points k).2 ≤ M))
+    (hds : ∀ k, (-Δ ≤ (Iup.getP ds k).1 ∧ (Iup.getP ds k).1 ≤ Δ) ∧ (-Δ ≤ (Iup.getP ds k).2 ∧ (Iup.getP ds k).2 ≤ Δ))
+    (hds0 : ∀ k, has.getD k false = false → Iup.getP ds k = (0, 0)) :
+    ∃ out, Iup.readerInterpolate points has ends
+        (workOf points (ds.map fun d => (d.1 * s, d.2 * s))) = some out ∧ out.length = np ∧
+      ContoursAll (fun first last => ∀ k, first ≤ k → k ≤ last →
+        let I := Iup.inferSpec (points.drop first) ((ds.drop first).take (last - first + 1)) (has.drop first) (k - first)
+        let δx := (Iup.getP out k).1 - (Iup.getP points k).1 * 65536
+        let δy := (Iup.getP out k).2 - (Iup.getP points k).2 * 65536
+        0 < I.1.2 ∧ 0 < I.2.2 ∧
+        2 * (I.1.2 * δx - I.1.1 * s) ≤ I.1.2 * (I.1.2 - 1) ∧ 2 * (I.1.1 * s - I.1.2 * δx) ≤ I.1.2 * (I.1.2 - 1) ∧
+        2 * (I.2.2 * δy - I.2.1 * s) ≤ I.2.2 * (I.2.2 - 1) ∧ 2 * (I.2.1 * s - I.2.2 * δy) ≤ I.2.2 * (I.2.2 - 1) ∧
+        (has.getD k false = true → δx = (Iup.getP ds k).1 * s ∧ δy = (Iup.getP ds k).2 * s)) 0 ends ∧
+      (∀ k, endOf 0 ends ≤ k → k < np →
+        Iup.getP out k = ((Iup.getP points k).1 * 65536 + (Iup.getP ds k).1 * s,
+                          (Iup.getP points k).2 * 65536 + (Iup.getP ds k).2 * s)) := by
+  have hg : ∀ i, Iup.getP (ds.map fun d => (d.1 * s, d.2 * s)) i = ((Iup.getP ds i).1 * s, (Iup.getP ds i).2 * s) := by
+    intro i
+    unfold Iup.getP
+    rw [List.getD_eq_getElem?_getD, List.getD_eq_getElem?_getD, List.getElem?_map]
+    cases ds[i]? <;> simp
+  have hexb : ∀ k, (-(Δ * 65536) ≤ (Iup.getP (ds.map fun d => (d.1 * s, d.2 * s)) k).1 ∧
+        (Iup.getP (ds.map fun d => (d.1 * s, d.2 * s)) k).1 ≤ Δ * 65536) ∧
+      (-(Δ * 65536) ≤ (Iup.getP (ds.map fun d => (d.1 * s, d.2 * s)) k).2 ∧
+        (Iup.getP (ds.map fun d => (d.1 * s, d.2 * s)) k).2 ≤ Δ * 65536) := by
+    intro k
+    rw [hg k]
+    obtain ⟨⟨a1, a2⟩, ⟨a3, a4⟩⟩ := hds k
+    simp only []
+    refine ⟨⟨?_, ?_⟩, ⟨?_, ?_⟩⟩ <;> nlinarith
+  have hwl : (workOf points (ds.map fun d => (d.1 * s, d.2 * s))).length = np := by simp [workOf, hpl]
+  obtain ⟨out, e, hl, _, hall, htail⟩ := glyphLoop_contribution np points (ds.map fun d => (d.1 * s, d.2 * s)) has
+    hpl hhl (by simp [hdl]) M (Δ * 65536) hM (by omega) hfit hpts hexb
+    (fun k hk => by rw [hg k, hds0 k hk]; simp) ends 0 _ hwf hwl (fun k _ _ => rfl)
+  rw [← hpl, ← readerInterpolate_eq_glyphLoop] at e
+  refine ⟨out, e, hl, ?_, ?_⟩
+  · refine ContoursAll_mono ends 0 ?_ hall
+    intro first last hnear k hk1 hk2
+    have hn := hnear k hk1 hk2
+    have htake : ((ds.map fun d => (d.1 * s, d.2 * s)).drop first).take (last - first + 1)
+        = ((ds.drop first).take (last - first + 1)).map fun d => (d.1 * s, d.2 * s) := by
+      rw [List.map_take, List.map_drop]
+    rw [htake, inferSpec_scale _ _ _ _ s (by omega)] at hn
+    obtain ⟨n1, n2, n3, n4, n5, n6⟩ := hn
+    simp only [] at n1 n2 n3 n4 n5 n6
+    refine ⟨n1, n2, n3, n4, n5, n6, fun hh => ?_⟩
+    have hk' : k - first < last - first + 1 := by omega
+    have hI : Iup.inferSpec (points.drop first) ((ds.drop first).take (last - first + 1)) (has.drop first) (k - first)
+        = (((Iup.getP ds k).1, 1), ((Iup.getP ds k).2, 1)) := by
+      unfold Iup.inferSpec
+      have : (has.drop first).getD (k - first) false = true := by
+        rw [getD_drop_bool]; have : first + (k - first) = k := by omega
+        rw [this]; exact hh
+      rw [if_pos this, getP_take _ _ _ hk', getP_drop]
+      have : first + (k - first) = k := by omega
+      rw [this]
+    rw [hI] at n3 n4 n5 n6
+    simp only [] at n3 n4 n5 n6
+    constructor <;> omega
+  · intro k hk1 hk2
+    rw [htail k hk1 hk2, getP_workOf _ _ k (by omega), hg k]
 
 /-! ### accumulation over tuples and the final rounding -/
 
